@@ -5,7 +5,11 @@ use std::sync::Arc;
 
 use anyhow::Context;
 use aquatic_toml_config::TomlConfig;
+#[cfg(greatest_ape_aquatic_verif)]
+use crate::verif_shims::{ArcSwap, Cache, HashSet};
+#[cfg(not(greatest_ape_aquatic_verif))]
 use arc_swap::{ArcSwap, Cache};
+#[cfg(not(greatest_ape_aquatic_verif))]
 use hashbrown::HashSet;
 use serde::{Deserialize, Serialize};
 
@@ -147,6 +151,10 @@ fn parse_info_hash(line: &str) -> anyhow::Result<[u8; 20]> {
 
     Ok(bytes)
 }
+
+#[cfg(all(greatest_ape_aquatic_verif, kani))]
+#[path = "/verif/harness/in_common_access_list.rs"]
+pub mod verif_harness;
 
 #[cfg(test)]
 mod tests {
